@@ -12,6 +12,7 @@ ops (ints reduced modulo the candidates):
   ['commit']                       commit() in the middle of the db_session (ends the transaction, the session cache goes on)
   ['restart']                      leave db_session (commit) and enter a new one on the same Database
 A register is only usable in the transaction in which it was read.
+An actor with 'catch_lock': True catches 'database is locked' raised by an operation (not by commit) and goes on in the same session.
 Every executed op reports its *effective* form, from which `serial_results` (a tiny reference interpreter) computes what any
 serial execution of the committed sessions would have left in the database.
 """
@@ -77,6 +78,22 @@ def snapshot_fn(world):
 
 
 def make_exec(case):
+    inner = _make_exec(case)
+
+    def exec_op(st, op):
+        if not st.spec.get('catch_lock') or op[0] in ('commit', 'restart'):
+            return inner(st, op)
+        # the application catches 'database is locked' from a lookup / flush and goes on (retries) in the same db_session
+        try:
+            return inner(st, op)
+        except Exception as e:
+            if not sched.is_lock_error(e):
+                raise
+            return {'op': op[0], 'eff': [], 'locked': [], 'touched': [], 'caught': '%s: %s' % (type(e).__name__, str(e)[:80])}
+    return exec_op
+
+
+def _make_exec(case):
     nrows = len(case_rows(case))
 
     def exec_op(st, op):
@@ -221,7 +238,8 @@ def fmt_trace(case, events):
             v = ev['value']
             r = ''
             if isinstance(v, dict):
-                r = ' '.join(filter(None, [v.get('how', ''), 'locked=%s' % v['locked'] if v.get('locked') else '',
+                r = ' '.join(filter(None, [v.get('how', ''), 'CAUGHT %s' % v['caught'] if v.get('caught') else '',
+                                           'locked=%s' % v['locked'] if v.get('locked') else '',
                                            'effect=%s' % v['eff'] if v.get('eff') else '']))
             if ev['before'] != ev['after']:
                 r += ' COMMITTED -> %s' % ev['after']
@@ -325,6 +343,9 @@ def judge(case, events, states, initial, deadlock=None):
             close_tx(i, ev['step'])
             continue
         rec = ev['value']
+        if rec.get('caught'):
+            v.classes.add('caught_lock_error')
+            v.classes.add('lock_error')
         current[i].extend(rec['eff'])
         if rec['locked'] or any(e[0] == 'c' for e in rec['eff']):
             holder.add(i)
